@@ -198,7 +198,7 @@ def tlc(spec, cfg=None, env=None, workers=1, timeout=600, extra=None, heap="4g",
     if dfs:
         jopts.append("-Dtlc2.tool.queue.IStateQueue=StateDeque")
     cmd = ["timeout", str(timeout), "java"] + jopts + ["-cp", TLA_CP, "tlc2.TLC", "-workers", str(workers),
-           "-metadir", meta, "-config", cfg]
+           "-metadir", meta, "-noGenerateSpecTE", "-config", cfg]
     if not deadlock:
         cmd.append("-deadlock")
     cmd += (extra or []) + [spec]
@@ -378,16 +378,18 @@ class Run:
             "coverage": cov, "assumptions": self.assumptions, "wall_s": round(wall, 2),
             "violations": len(self.violations),
         }
-        os.makedirs(EVIDENCE, exist_ok=True)
-        tmp = os.path.join(EVIDENCE, self.prop + ".json.tmp")
+        extra = self.prop.startswith("X")     # growth checks beyond the listed properties: own evidence dir, own verdict word
+        evdir = EVIDENCE + "-extra" if extra else EVIDENCE
+        os.makedirs(evdir, exist_ok=True)
+        tmp = os.path.join(evdir, self.prop + ".json.tmp")
         json.dump(ev, open(tmp, "w"), indent=1, default=str)
-        os.replace(tmp, os.path.join(EVIDENCE, self.prop + ".json"))
+        os.replace(tmp, os.path.join(evdir, self.prop + ".json"))
         if self.violations:
             for i, v in enumerate(self.violations[:20]):
                 p = self.path("violation-%d.json" % i)
                 json.dump({"property": self.prop, "seed": self.seed, "tier": self.tier, **v},
                           open(p, "w"), indent=1, default=str)
-                print("VIOLATION property=%s replay=%s  # %s" % (self.prop, p, v["why"][:300]))
+                print("%s property=%s replay=%s  # %s" % ("EXTRA-VIOLATION" if extra else "VIOLATION", self.prop, p, v["why"][:300]))
             if len(self.violations) > 20:
                 print("INFO %d further violations not listed" % (len(self.violations) - 20))
             return 1
